@@ -156,6 +156,17 @@ def main(argv):
             else:
                 print("INFO: finding %s no longer reproduces on this tree; its excluded shapes are searched again" % fnd["id"])
 
+    # switches of open findings that belong to *other* properties stay on: their defects are replayed and
+    # reported by the check of their own property and would only get in the way of this property's search
+    own_ids = {f["id"] for f in load_findings(pid)}
+    try:
+        with open(os.path.join(ROOT, "known_findings.json")) as f:
+            for fnd in json.load(f).get("findings", []):
+                if fnd.get("status", "open") == "open" and fnd.get("switch") and fnd["id"] not in own_ids:
+                    switches.add(fnd["switch"])
+    except OSError:
+        pass
+
     for line in known_lines:
         print(line)
 
